@@ -354,6 +354,7 @@ Proof.
   - apply judge_agrees_ok_sched; assumption.
   - apply judge_agrees_ok_schedcb; assumption.
   - apply judge_agrees_ok_regw; assumption.
+  - apply judge_agrees_ok_schedw; assumption.
   - apply judge_agrees_ok_routew; assumption.
   - apply judge_agrees_ok_default; assumption.
   - apply judge_agrees_ok_default_stream; assumption.
@@ -593,3 +594,14 @@ Example C12_nonvacuous_percall_race :
   cpcs G = [CDone (RGet (NotFound "n")); CDone (RGet (Got 9)); CDone (RGet (Got 9))]%string
   /\ slog (cst G) = [mkChange "n" 0 9 true] /\ ccbs G = [mkChange "n" 0 9 true].
 Proof. vm_compute. repeat split. Qed.
+(* the judge on concurrent Gets with per-call outcomes: the race above is accepted (verdict 0); an
+   observation in which the caller whose factory returned client+error got that client is rejected
+   by the predicate as well as by the comparison with the model (verdict 3) *)
+Example C12_judge_schedw_nonvacuous :
+  let o := mkW true true true in
+  let ths := [WTGet "n" FNil (FBoth 7); WTGet "n" FNil (FOk 8); WTGet "n" FErr (FOk 9)]%string in
+  judge (KSchedW o ths [0;1;2;0;1;2;2;1;0;2;1]%nat
+           [RGet (NotFound "n"); RGet (Got 9); RGet (Got 9)]%string [mkChange "n" 0 9 true] [("n"%string, 9)]) = 0
+  /\ judge (KSchedW o ths [0;1;2;0;1;2;2;1;0;2;1]%nat
+           [RGet (Got 7); RGet (Got 9); RGet (Got 9)]%string [mkChange "n" 0 9 true] [("n"%string, 9)]) = 3.
+Proof. vm_compute. split; reflexivity. Qed.
